@@ -12,7 +12,7 @@ EXPLANATION = ("airtovac/vactoair on the real functions over reals: identity bel
 UNDECIDED = ["floating-point rounding of the Ciddor formula (A1: floats as reals)", "Quantity input/unit conversion: astropy units trusted (A5)",
              "airtovac(vactoair(v)) == v to 1e-6 A: decided for v in [2010 A, 2 um]; for [2000, 2010] A and (2 um, 30 um] the nested rational "
              "inequality is not decided by z3 (nlsat) or cvc5 within the budget (the other direction is decided on the whole range)",
-             "filter_thru (trace-set fit + interpolation of the filter curves): not under contract in this version"]
+             "filter_thru (trace-set evaluation + interpolation of the real filter curves): linearity, constant spectrum, min/max bounds and mask independence only as a bounded numerical stand-in (filter_thru_weighted_mean)"]
 
 LO, HI = 2000.0, 3.0e5
 
